@@ -24,7 +24,8 @@ class TrashDirReader:
     def list_trashinfo(self, path):
         info_dir = os.path.join(path, 'info')
         for entry in self.dir_reader.entries_if_dir_exists(info_dir):
-            # a file named just '.trashinfo' describes no payload: its backup
-            # copy would be the 'files' directory itself
-            if entry.endswith('.trashinfo') and entry != '.trashinfo':
+            # '.trashinfo', '..trashinfo' and '...trashinfo' describe no payload:
+            # their backup copy would be 'files' itself, 'files/.' or 'files/..'
+            if (entry.endswith('.trashinfo')
+                    and entry[:-len('.trashinfo')] not in ('', '.', '..')):
                 yield os.path.join(info_dir, entry)
